@@ -286,11 +286,14 @@ RelDefined(t, o) ==
 RelVis(t, o) == IF ~RelDefined(t, o) THEN "undef"
                 ELSE IF \E i \in (o.c + 1)..Len(o.p) : LowerHop(t, o.p, i) THEN "no" ELSE "any"
 
+(* not read: the access fails, or the dot symbol comes back as it was written *)
+NotRead(res) == IsErr(res) \/ (res[1] = "val" /\ res[2][1] = "sym")
+
 ApplyRel(t, o) ==
     LET v == RelVis(t, o)
     IN [ok |-> CASE v = "undef" -> TRUE
-                 [] v = "no"    -> IsErr(o.res)
-                 [] OTHER       -> IsErr(o.res) \/ Matches(o.res, Abs(NodeAt(t, o.p))),
+                 [] v = "no"    -> NotRead(o.res)
+                 [] OTHER       -> NotRead(o.res) \/ Matches(o.res, Abs(NodeAt(t, o.p))),
         c |-> t, vis |-> v]
 
 Apply(t, o) == CASE o.op = "out" -> ApplyOut(t, o)
@@ -423,5 +426,5 @@ ImplRel(t, o) ==
 
 ImplRelOut(t, o) ==
     LET d == ImplRel(t, o)
-    IN [ok |-> IF d.k = "err" THEN IsErr(o.res) ELSE Matches(o.res, Abs(d.n)), c |-> t]
+    IN [ok |-> IF d.k = "err" THEN NotRead(o.res) ELSE Matches(o.res, Abs(d.n)), c |-> t]
 =============================================================================
